@@ -32,7 +32,7 @@ class Group:
         self.note = note; self.trusted = list(trusted); self.assumptions = list(assumptions)
         self.known = known            # dict(id=..., define=..., obligations=[regex]) or None
         self.extract = extract        # callable(workdir) -> dict(info) that writes generated sources
-        self.tier = tier; self.checks = checks; self.property_tag = property_tag
+        self.tier = tier; self.checks = checks; self.property_tag = property_tag; self.unwind_is_obligation = False
 
 
 def _limits(mem_gb):
@@ -122,7 +122,7 @@ def run_group(g, workroot, extra_defines=(), want_trace=False, only_property=Non
         checks = list(BASE_CHECKS if g.checks is None else g.checks)
         # DFCC allocates tables of 2^object_bits entries: memory grows steeply with --object-bits, so start
         # small and escalate only when cbmc reports "too many addressed objects"
-        ob = g.object_bits or 9
+        ob = g.object_bits or 8
         outp = os.path.join(wd, "out.json")
         while True:
             cb = ["cbmc", b] + checks + list(g.flags)
@@ -198,11 +198,14 @@ def run_group(g, workroot, extra_defines=(), want_trace=False, only_property=Non
             res["detail"] = "zero obligations generated"
         elif missing:
             res["detail"] = "required obligations missing (contract silently dropped?): %s" % missing
+        elif failed and any(".unwind." in (o["id"] or "") for o in failed) and not getattr(g, "unwind_is_obligation", False):
+            res["detail"] = "unwinding bound too small (tool limit, not a violation): %s" % [o["id"] for o in failed if ".unwind." in (o["id"] or "")][:4]
+        elif failed:
+            # a failed obligation is a violation even if CBMC leaves later obligations of the same path undecided
+            res["status"] = "violated"
+            res["detail"] = "%d failed%s" % (len(failed), (", %d undecided after the failure" % len(other)) if other else "")
         elif other:
             res["detail"] = "undecided obligations: %s" % [(o["id"], o["status"]) for o in other[:5]]
-        elif failed:
-            res["status"] = "violated"
-            res["detail"] = "%d failed" % len(failed)
         elif bad_reach:
             res["detail"] = "vacuity guard: goals not reachable: %s" % [r["desc"] for r in bad_reach]
         else:
